@@ -6,6 +6,12 @@
  * positions of pending grow and shrink rehashes) plus seeded random
  * histories; the mode selects the probes applied on a replica of every new
  * state and the extra oracle (hash-function call log for "incr").
+ *
+ * Key families: small, 64-bit, aliased (equal low 36 bits) and BOUNDARY keys (0, 1, SIZE_MAX, SIZE_MAX-1, 2^63+-1, 2^32, 2^31, ...;
+ * counted as "first key after init / resize / completed rehash / clear").  Bucket counts include exact doublings of non-powers
+ * of two (3->6, 5->10, 6->12, 7->14); in every second lookup/enum case cstl_hash_div / cstl_hash_mul are passed as such.
+ * Visitors of find / foreach / foreach_const make read-only re-entrant calls (size, load, nested foreach_const on the same table
+ * while no rehash is pending; keyed calls on a bystander table and on the other model table).
  */
 #include "vrt.h"
 /* Only resize and shrink_to_fit need memory (and have a documented way to fail).  In every second case everything else -- insert,
@@ -29,6 +35,7 @@ struct elem {
     size_t key;
     int where;                  /* table index or -1 */
     int visits;
+    int nest;                   /* visit mark of an enumeration nested in a visitor */
     uint64_t pad0;
     /* two embedded nodes: table 0 links elements through node[0], table 1 through node[1], so that the
      * `off` member of the table object is observable (swap exchanges it with everything else) */
@@ -54,7 +61,30 @@ static int use_macro;             /* tables are made with CSTL_HASH_INITIALIZER 
  * comparison or a stored key narrower than size_t confuses them */
 static int bigkeys;
 #define KALIAS ((size_t)2520 << 36)
-static size_t KX(size_t a) { return bigkeys == 2 ? (a >> 1) + (a & 1) * KALIAS : bigkeys ? a | ((a * 0x9E3779B1u + 0x7F4A7C15u) << 32) : a; }            /* which embedded node the table object currently uses */
+/* 3: BOUNDARY keys: key number j stands for BK[(j + bkrot) % NBK] -- 0, 1, SIZE_MAX, SIZE_MAX-1 (k+1 == 0, k-1 wraps), 2^63 and its
+ * neighbours, 2^32, 2^32-1, 2^31, 2^31-1 and a key whose low 32 bits are zero; key numbers past the list map to ordinary small keys
+ * (the map stays injective: the incr mode needs unique keys).  A sentinel or cache that encodes "nothing" as 0 or as key+1, a signed or
+ * 32-bit intermediate shows only with these, and only when such a key is the first one used after init/resize/rehash/clear. */
+#define NBK 12
+static const size_t BK[NBK] = { 0, SIZE_MAX, 1, SIZE_MAX - 1, (size_t)1 << 63, ((size_t)1 << 63) - 1, (size_t)1 << 32, ((size_t)1 << 32) - 1,
+                                (size_t)1 << 31, ((size_t)1 << 31) - 1, SIZE_MAX << 32, ((size_t)1 << 63) + 1 };
+static const char *const BKNAME[NBK] = { "0", "size-max", "1", "size-max-minus-1", "2^63", "2^63-1", "2^32", "2^32-1", "2^31", "2^31-1",
+                                         "2^64-2^32", "2^63+1" };
+static unsigned bkrot;
+static size_t KX(size_t a);
+static size_t KXB(size_t a)
+{
+    /* the incr mode numbers its keys 1, 4, 7, ... */
+    const size_t j = mode == M_INCR ? a / 3 : a;
+    return j < NBK ? BK[(j + bkrot) % NBK] : a + 2;
+}
+static int bk_index(size_t key)
+{
+    int i;
+    for (i = 0; i < NBK; i++) if (BK[i] == key) return i;
+    return -1;
+}
+static size_t KX(size_t a) { return bigkeys == 3 ? KXB(a) : bigkeys == 2 ? (a >> 1) + (a & 1) * KALIAS : bigkeys ? a | ((a * 0x9E3779B1u + 0x7F4A7C15u) << 32) : a; }            /* which embedded node the table object currently uses */
 
 /* ---- model of the requested geometry (C19) ---- */
 struct geo { size_t n; int f; };                /* f: function id, NF = unlogged cstl_hash_mul */
@@ -62,6 +92,38 @@ static struct geo inforce[MAXT], oldgeo[MAXT];
 static int pending_possible[MAXT];              /* a rehash may still be in progress */
 static size_t sweep_len[MAXT], keyed_since[MAXT];
 static int resized_while_pending;
+
+/* boundary-key coverage: what happened to a table since its last keyed call ("first key used after ...") */
+enum { F_INIT = 1, F_RESIZE = 2, F_REHASH = 4, F_CLEAR = 8 };
+static int fresh[MAXT], cleared_before[MAXT], pend_before[MAXT];
+static int table_pending(int t);
+static void note_keyed(int t, size_t key)
+{
+    static int ids[NBK];
+    const int bi = bk_index(key);
+    if (bi >= 0) {
+        if (ids[bi] == 0) {
+            char nm[64];
+            snprintf(nm, sizeof(nm), "boundary.keyed.key-%s", BKNAME[bi]);
+            ids[bi] = vrt_counter_id(nm) + 1;
+        }
+        vrt_ctr[ids[bi] - 1]++;
+        if (bigkeys == 3) {
+            if (fresh[t] & F_INIT) VRT_COUNT("boundary.first-key.after-init");
+            if (fresh[t] & F_CLEAR) VRT_COUNT("boundary.first-key.after-clear");
+            if (fresh[t] & F_RESIZE) VRT_COUNT("boundary.first-key.after-resize");
+            if (fresh[t] & F_REHASH) VRT_COUNT("boundary.first-key.after-rehash-completed");
+            if (fresh[t] && key + 1 == 0) VRT_COUNT("boundary.first-key.is-size-max");
+            if (fresh[t] && key == 0) VRT_COUNT("boundary.first-key.is-0");
+        }
+    }
+    fresh[t] = 0;
+    pend_before[t] = table_pending(t);
+}
+static void done_keyed(int t)
+{
+    if (pend_before[t] && !table_pending(t)) fresh[t] |= F_REHASH;
+}
 
 /* ---- hash function family with logging trampolines ---- */
 struct hlog { size_t k, m; int f; };
@@ -91,7 +153,17 @@ static int fid_of(cstl_hash_func_t *f)
     if (f == NULL) return -1;
     for (i = 0; i < NF; i++) if (f == tramp[i]) return i;
     if (f == cstl_hash_mul) return NF;
+    if (f == cstl_hash_div) return NF + 2;
     return NF + 1;
+}
+/* lookup/enum modes, every second case: functions 4 and 5 are the library's own cstl_hash_div / cstl_hash_mul handed over as such
+ * (no trampoline in between: the table sees the very pointers a client would pass) */
+static int direct_fns;
+static cstl_hash_func_t *fn_of(int f)
+{
+    if (direct_fns && f == 4) return cstl_hash_div;
+    if (direct_fns && f == 5) return cstl_hash_mul;
+    return tramp[f];
 }
 
 /* ---- ops ---- */
@@ -110,18 +182,22 @@ static struct elem *new_elem(int id)
 {
     struct elem *e = vrt_alloc(sizeof(*e));
     memset(e, 0x5e, sizeof(*e));
-    e->magic = MAGIC; e->id = id; e->where = -1; e->visits = 0;
+    e->magic = MAGIC; e->id = id; e->where = -1; e->visits = 0; e->nest = 0;
     e->key = KX(mode == M_INCR ? (size_t)id * 3 + 1 : (size_t)(id % nkeys));
     e->node[0].key = e->node[1].key = e->key;   /* "key field initialised" for never-inserted objects */
     e->node[0].next = e->node[1].next = NULL;
     return e;
 }
 
+static int aux_made;            /* the bystander table of the re-entrant visitors (below) exists */
+static unsigned reent_tick;
+static void aux_destroy(void);
 #define SCOPE(nt, nk, np) ((nt) | (nk) << 4 | (np) << 12)
 static void st_create(int scope)
 {
     int i;
     ntab = scope & 15; nkeys = (scope >> 4) & 0xff; npool = scope >> 12;
+    aux_made = 0; reent_tick = 0;
     for (i = 0; i < npool; i++) pool[i] = new_elem(i);
     for (i = 0; i < ntab; i++) {
         tcls[i] = i & 1;
@@ -134,6 +210,7 @@ static void st_create(int scope)
         } else cstl_hash_init(&T[i], offsetof(struct elem, node) + tcls[i] * sizeof(struct cstl_hash_node));
         nlive[i] = 0; ready[i] = 0; pending_possible[i] = 0;
         inforce[i].n = 0; inforce[i].f = -1; keyed_since[i] = 0; sweep_len[i] = 0;
+        fresh[i] = 0; cleared_before[i] = 0; pend_before[i] = 0;
     }
 }
 static void st_destroy(void)
@@ -143,6 +220,7 @@ static void st_destroy(void)
         /* release the bucket array without touching the elements */
         cstl_hash_clear(&T[i], NULL);
     }
+    aux_destroy();
     for (i = 0; i < npool; i++) { vrt_free(pool[i]); pool[i] = NULL; }
     if (vrt_lib_live() != 0)
         vrt_fail("hash.leak.bucket-array", "%zu library blocks still live after clear of every table", vrt_lib_live());
@@ -180,8 +258,147 @@ static void check_size(int t, const char *key)
         vrt_fail(key, "table %d: size %zu, live elements in the model %d", t, cstl_hash_size(&T[t]), nlive[t]);
 }
 
+/* ---- read-only re-entrancy: what a visitor (of foreach, foreach_const, find) may do while the library is inside the enumeration ----
+ * On the SAME table: size and load, and -- while no rehash is pending -- a nested foreach_const.  On ANOTHER table: anything, keyed
+ * calls included: a private bystander table (AUX: find of present and absent keys, erase + insert, resize, enumeration) and, in
+ * two-table scopes, a find on the other model table.  The outer enumeration must not notice: a cursor, "current bucket" or scratch
+ * slot kept in the table object or in a static shows as a missed or repeated element of the outer or of the nested walk. */
+#define NAUX 5
+#define AUXMAGIC 0x0a0b0c0du
+static struct cstl_hash AUX;
+static struct elem auxstore[NAUX], *auxe[NAUX];  /* static storage: the bystander table is made in a great many replicas */
+static int aux_made, aux_nin;
+static unsigned reent_tick;
+static size_t aux_hash(size_t k, size_t m) { return (k ^ (k >> 7)) % m; }
+static int aux_count_visit(const void *e, void *p)
+{
+    const struct elem *x = e;
+    if (x->magic != AUXMAGIC) return -2;
+    ++*(int *)p;
+    return 0;
+}
+static void aux_make(void)
+{
+    static const size_t k[NAUX] = { 0, SIZE_MAX, 5, 5, (size_t)1 << 32 };
+    int i;
+    memset(&AUX, 0x33, sizeof(AUX));
+    cstl_hash_init(&AUX, offsetof(struct elem, node) + (use_macro ? 0 : 1) * sizeof(struct cstl_hash_node));
+    VRT_OP0("hash.resize", "bystander table: n=3 (first)");
+    MAY_ALLOC(cstl_hash_resize(&AUX, 3, aux_hash));
+    for (i = 0; i < NAUX; i++) {
+        struct elem *e = &auxstore[i];
+        memset(e, 0x5e, sizeof(*e));
+        e->magic = AUXMAGIC; e->id = -1 - i; e->where = 8; e->visits = 0; e->key = k[i];
+        auxe[i] = e;
+        cstl_hash_insert(&AUX, e->key, e);
+    }
+    aux_nin = NAUX; aux_made = 1;
+}
+static void aux_destroy(void)
+{
+    int i;
+    if (!aux_made) return;
+    cstl_hash_clear(&AUX, NULL);
+    for (i = 0; i < NAUX; i++) auxe[i] = NULL;
+    aux_made = 0;
+}
+/* keyed and unkeyed calls on the bystander table, each with its own small oracle */
+static void aux_calls(unsigned tick)
+{
+    static const size_t ncycle[4] = { 6, 4, 12, 3 };
+    struct elem *x, *r;
+    int n = 0, rc;
+    if (!aux_made) aux_make();
+    vrt_state("bystander-table-in-visitor");
+    if (tick % 4 == 1) {
+        VRT_OP1("hash.resize", "bystander table: n=%ld (from inside a visitor of another table)", ncycle[tick / 4 % 4]);
+        MAY_ALLOC(cstl_hash_resize(&AUX, ncycle[tick / 4 % 4], (tick & 8) ? cstl_hash_div : aux_hash));
+    }
+    x = auxe[tick % NAUX];
+    VRT_OP1("hash.find", "bystander table: key of its element %ld (from inside a visitor of another table)", tick % NAUX);
+    r = cstl_hash_find(&AUX, x->key, NULL, NULL);
+    VRT_CHECK(r != NULL && r->magic == AUXMAGIC && r->key == x->key, "hash.bystander.find.missed-live-element",
+              "find on the bystander table, called from a visitor, did not return an element of key %zu", x->key);
+    VRT_OP0("hash.find", "bystander table: absent key (from inside a visitor of another table)");
+    r = cstl_hash_find(&AUX, 7, NULL, NULL);
+    VRT_CHECK(r == NULL, "hash.bystander.find.found-absent-key", "find(7) on the bystander table returned %p", (void *)r);
+    VRT_OP0("hash.erase", "bystander table (from inside a visitor of another table)");
+    cstl_hash_erase(&AUX, x);
+    VRT_CHECK(cstl_hash_size(&AUX) == (size_t)aux_nin - 1, "hash.bystander.erase.size", "bystander table: size %zu after erasing one of %d", cstl_hash_size(&AUX), aux_nin);
+    VRT_OP0("hash.insert", "bystander table (from inside a visitor of another table)");
+    cstl_hash_insert(&AUX, x->key, x);
+    VRT_CHECK(cstl_hash_size(&AUX) == (size_t)aux_nin, "hash.bystander.insert.size", "bystander table: size %zu, %d elements", cstl_hash_size(&AUX), aux_nin);
+    VRT_OP0("hash.foreach_const", "bystander table (from inside a visitor of another table)");
+    rc = cstl_hash_foreach_const(&AUX, aux_count_visit, &n);
+    VRT_CHECK(rc == 0 && n == aux_nin, "hash.bystander.foreach_const.missed-element",
+              "enumeration of the bystander table from inside a visitor: %d of %d elements (returned %d)", n, aux_nin, rc);
+    VRT_COUNT("reentrant.bystander-table.rounds");
+}
+
+struct nestp { int t, n, stop_at, stop_val, bad; };
+static int nest_visit(const void *e, void *p)
+{
+    struct nestp *q = p;
+    struct elem *x = (struct elem *)e;
+    if (x->magic != MAGIC || x->where != q->t) { q->bad = 1; return 77; }
+    if (x->nest != 0) { q->bad = 2; return 77; }
+    x->nest = 1;
+    return q->n++ == q->stop_at ? q->stop_val : 0;
+}
+/* everything a read-only visitor of table t does; outer = entry point whose visitor we are in */
+static void reentrant_calls(int t, const char *outer, const char *st)
+{
+    const unsigned tick = reent_tick++;
+    /* same table: size, load */
+    if (cstl_hash_size(&T[t]) != (size_t)nlive[t])
+        vrt_fail("hash.size.in-visitor", "size %zu read by a visitor of %s, %d live elements", cstl_hash_size(&T[t]), outer, nlive[t]);
+    if (ready[t]) { volatile float ld = cstl_hash_load(&T[t]); (void)ld; }       /* no demand on the value here (C19 states it for the moment after a resize) */
+    VRT_COUNT("reentrant.same-table.size-load");
+    /* same table: nested foreach_const (only while no rehash is pending) */
+    if (!table_pending(t)) {
+        struct nestp q = { t, 0, -1, 0, 0 };
+        int i, r;
+        for (i = 0; i < nlive[t]; i++) LIVE[t][i]->nest = 0;
+        if (tick % 3 == 2 && nlive[t] > 0) { q.stop_at = (int)(tick / 3 % (unsigned)nlive[t]); q.stop_val = vrt_stop_value(tick); }
+        vrt_state("nested-in-visitor");
+        VRT_OP2("hash.foreach_const", "t%ld nested: called by a visitor of the same table, stop@%ld", t, q.stop_at);
+        r = cstl_hash_foreach_const(&T[t], nest_visit, &q);
+        VRT_CHECK(q.bad != 1, "hash.foreach_const.nested.visited-non-member", "nested enumeration (from a visitor of %s) visited an object that is not live in table %d", outer, t);
+        VRT_CHECK(q.bad != 2, "hash.foreach_const.nested.visited-twice", "nested enumeration (from a visitor of %s) visited an element twice", outer);
+        if (q.stop_at < 0) {
+            VRT_CHECK(r == 0, "hash.foreach_const.nested.return-value", "nested enumeration returned %d without a stop request", r);
+            if (q.n != nlive[t])
+                vrt_fail("hash.foreach_const.nested.missed-element", "nested enumeration (from a visitor of %s) visited %d of %d live elements", outer, q.n, nlive[t]);
+        } else {
+            VRT_CHECK(r == q.stop_val, "hash.foreach_const.nested.stop-value", "nested enumeration returned %d, its visitor asked to stop with %d", r, q.stop_val);
+            VRT_CHECK(q.n == q.stop_at + 1, "hash.foreach_const.nested.continued-after-stop", "%d visits, stop requested at visit %d", q.n, q.stop_at);
+        }
+        VRT_COUNT("reentrant.same-table.nested-foreach_const");
+    }
+    /* other tables: keyed calls as well */
+    aux_calls(tick);
+    if (ntab == 2 && ready[1 - t]) {
+        const int o = 1 - t;
+        const size_t key = KX(mode == M_INCR ? (size_t)(tick % (unsigned)npool) * 3 + 1 : (size_t)(tick % (unsigned)(nkeys + 1)));
+        const int nl = count_live(o, key);
+        struct elem *r;
+        vrt_state("other-table-in-visitor");
+        VRT_OP2("hash.find", "t%ld key=%ld (called by a visitor of the other table)", o, key);
+        r = cstl_hash_find(&T[o], key, NULL, NULL);
+        if (nl == 0) {
+            VRT_CHECK(r == NULL, "hash.find.found-absent-key.from-visitor", "find(key %zu) on the other table returned %p, no live element has that key", key, (void *)r);
+        } else {
+            VRT_CHECK(r != NULL && r->magic == MAGIC && r->where == o && r->key == key, "hash.find.missed-live-element.from-visitor",
+                      "find(key %zu) on the other table, called by a visitor, did not return one of the %d live elements of that key", key, nl);
+        }
+        VRT_COUNT("reentrant.other-model-table.find");
+    }
+    vrt_state(st);
+    VRT_OP1(outer, "t%ld: the visitor returns from its re-entrant calls, the enumeration goes on", t);
+}
+
 /* ---- find visitors ---- */
-struct findp { int t; size_t key; int accept_at; int noffered; int bad; const struct elem *accepted; };
+struct findp { int t; size_t key; int accept_at; int noffered; int bad; const struct elem *accepted; int reent; const char *state; };
 static int find_visit(const void *e, void *p)
 {
     struct findp *f = p;
@@ -190,6 +407,7 @@ static int find_visit(const void *e, void *p)
     if (x->key != f->key) { f->bad = 2; return 0; }
     if (x->visits != 0) { f->bad = 3; return 0; }
     x->visits = 1;
+    if (f->reent && f->noffered < 3) { reentrant_calls(f->t, "hash.find", f->state); VRT_COUNT("reentrant.visitor-calls.find"); }
     /* any non-zero value means "accept": positive, negative and extreme values are all used */
     if (f->noffered++ == f->accept_at) { f->accepted = x; return (int)(x->key % 3) == 0 ? 1 : (int)(x->key % 3) == 1 ? -1 : (-2147483647 - 1); }
     return 0;
@@ -337,7 +555,7 @@ static int st_apply(uint32_t op, int audit)
     switch (kind) {
     case K_INSERT:
         if (!ready[t] || (e = take_free(a)) == NULL) return 0;
-        count_keyed(t, "insert");
+        count_keyed(t, "insert"); note_keyed(t, a);
         vrt_state(table_pending(t) ? "pending" : "idle");
         VRT_OP3("hash.insert", "t%ld e%ld key=%ld", t, e->id, a);
         incr_begin(); wb_snap(t, &wb);
@@ -346,21 +564,23 @@ static int st_apply(uint32_t op, int audit)
         if (mode == M_INCR && inforce[t].f < NF) shadow_bucket[e->id] = fam(inforce[t].f, a, inforce[t].n);
         incr_after_keyed(t, a, "insert");
         if (mode == M_INCR) wb_check(t, &wb);
+        done_keyed(t);
         check_size(t, "hash.size.after-insert");
         VRT_COUNT("op.insert");
         break;
     case K_FIND: {
         struct findp f = { t, a, -1, 0, 0, NULL };
+        const int vb = b & 7, re = (b >> 3) & 1;        /* b & 8: the visitor makes read-only re-entrant calls */
         void *r;
         int nl;
         if (!ready[t]) return 0;
         nl = count_live(t, a);
-        count_keyed(t, "find");
+        count_keyed(t, "find"); note_keyed(t, a);
         vrt_state(table_pending(t) ? "pending" : "idle");
         VRT_OP3("hash.find", "t%ld key=%ld visitmode=%ld", t, a, b);
         clear_visits(t);
         incr_begin(); wb_snap(t, &wb);
-        if (b == 0) {
+        if (vb == 0) {
             r = cstl_hash_find(&T[t], a, NULL, NULL);
             if (nl == 0) {
                 VRT_CHECK(r == NULL, "hash.find.found-absent-key", "find(key %zu) returned %p but no live element has that key", a, r);
@@ -372,24 +592,29 @@ static int st_apply(uint32_t op, int audit)
             }
             VRT_COUNT("op.find.no-visitor");
         } else {
-            f.accept_at = b == 1 ? -1 : b - 2;          /* 1: reject all; 2+j: accept the j-th offered */
+            f.accept_at = vb == 1 ? -1 : vb - 2;        /* 1: reject all; 2+j: accept the j-th offered */
+            f.reent = re; f.state = table_pending(t) ? "pending" : "idle";
             r = cstl_hash_find(&T[t], a, find_visit, &f);
-            VRT_CHECK(f.bad != 1, "hash.find.offered-non-member", "find(key %zu) offered an object that is not live in table %d", a, t);
-            VRT_CHECK(f.bad != 2, "hash.find.offered-other-key", "find(key %zu) offered an element of another key", a);
-            VRT_CHECK(f.bad != 3, "hash.find.offered-twice", "find(key %zu) offered the same element twice", a);
+#define FK(s) (re ? "hash.find.reentrant-visitor." s : "hash.find." s)
+            VRT_CHECK(f.bad != 1, FK("offered-non-member"), "find(key %zu) offered an object that is not live in table %d", a, t);
+            VRT_CHECK(f.bad != 2, FK("offered-other-key"), "find(key %zu) offered an element of another key", a);
+            VRT_CHECK(f.bad != 3, FK("offered-twice"), "find(key %zu) offered the same element twice", a);
             if (f.accepted != NULL) {
-                VRT_CHECK(r == f.accepted, "hash.find.returned-not-accepted", "find returned %p, visitor accepted %p", r, (void *)f.accepted);
+                VRT_CHECK(r == f.accepted, FK("returned-not-accepted"), "find returned %p, visitor accepted %p", r, (void *)f.accepted);
                 VRT_COUNT("op.find.accepting-visitor");
             } else {
-                VRT_CHECK(r == NULL, "hash.find.returned-rejected", "find returned %p although the visitor accepted nothing", r);
-                VRT_CHECK(f.noffered == nl, "hash.find.not-all-offered",
+                VRT_CHECK(r == NULL, FK("returned-rejected"), "find returned %p although the visitor accepted nothing", r);
+                VRT_CHECK(f.noffered == nl, FK("not-all-offered"),
                           "find(key %zu) with a rejecting visitor offered %d of %d live elements", a, f.noffered, nl);
                 VRT_COUNT("op.find.rejecting-visitor");
             }
+#undef FK
+            if (re) VRT_COUNT("op.find.reentrant-visitor");
             if (nl > 1) VRT_COUNT("op.find.duplicate-key");
         }
         incr_after_keyed(t, a, "find");
         if (mode == M_INCR) wb_check(t, &wb);
+        done_keyed(t);
         check_size(t, "hash.size.after-find");
         break;
     }
@@ -399,7 +624,7 @@ static int st_apply(uint32_t op, int audit)
         if (!ready[t]) return 0;
         e = b == 0 ? first_live(t, a) : take_free(a);
         if (e == NULL) return 0;
-        count_keyed(t, "erase");
+        count_keyed(t, "erase"); note_keyed(t, a);
         vrt_state(b == 0 ? "member" : "non-member");
         VRT_OP3("hash.erase", "t%ld e%ld member=%ld", t, e->id, b == 0);
         incr_begin(); wb_snap(t, &wb);
@@ -408,6 +633,7 @@ static int st_apply(uint32_t op, int audit)
         else VRT_COUNT("op.erase.non-member");
         incr_after_keyed(t, a, "erase");
         if (mode == M_INCR) wb_check(t, &wb);
+        done_keyed(t);
         if (cstl_hash_size(&T[t]) != (size_t)nlive[t])
             vrt_fail(b == 0 ? "hash.erase.member.size" : "hash.erase.non-member.changed-size",
                      "erase(%s): size %zu, expected %d (before %d)", b == 0 ? "member" : "non-member",
@@ -423,7 +649,8 @@ static int st_apply(uint32_t op, int audit)
         if (mode == M_INCR && !ready[t] && f < 0) return 0;    /* unlogged default function */
         vrt_state(was_pending ? "while-pending" : ready[t] ? "idle" : "first");
         VRT_OP3("hash.resize", "t%ld n=%ld f=%ld", t, n, f);
-        MAY_ALLOC(cstl_hash_resize(&T[t], n, f < 0 ? NULL : tramp[f]));
+        MAY_ALLOC(cstl_hash_resize(&T[t], n, f < 0 ? NULL : fn_of(f)));
+        if (direct_fns && f >= 4) VRT_COUNT("op.resize.library-function-passed-directly");
         if (a == 0xfff) {
             /* cannot be satisfied: nothing visible may change, now or at any later resize */
             VRT_COUNT("op.resize.unsatisfiable");
@@ -435,9 +662,10 @@ static int st_apply(uint32_t op, int audit)
         } else if (n >= 1) {
             struct geo g;
             g.n = n;
-            g.f = f >= 0 ? f : ready[t] ? inforce[t].f : NF;
+            g.f = f >= 0 ? (direct_fns && f == 5 ? NF : f) : ready[t] ? inforce[t].f : NF;    /* NF: cstl_hash_mul itself, named or by default */
             if (!ready[t]) {
                 ready[t] = 1; inforce[t] = g; pending_possible[t] = 0;
+                fresh[t] |= cleared_before[t] ? F_CLEAR : F_INIT;
                 VRT_COUNT("op.resize.first");
             } else if (g.n != inforce[t].n || g.f != inforce[t].f) {
                 if (mode == M_INCR) {
@@ -455,6 +683,13 @@ static int st_apply(uint32_t op, int audit)
                 if (g.n > oldgeo[t].n) VRT_COUNT("op.resize.grow");
                 else if (g.n < oldgeo[t].n) VRT_COUNT("op.resize.shrink");
                 else VRT_COUNT("op.resize.same-size-other-function");
+                fresh[t] |= F_RESIZE;
+                /* exact doublings with the function kept: 4->8 as well as 3->6, 5->10, 6->12, 7->14 (a split-in-place shortcut) */
+                if (g.n == 2 * oldgeo[t].n && g.f == oldgeo[t].f) {
+                    if ((oldgeo[t].n & (oldgeo[t].n - 1)) == 0) VRT_COUNT("op.resize.doubling.power-of-two");
+                    else VRT_COUNT("op.resize.doubling.not-power-of-two");
+                    if (nlive[t] >= 2) VRT_COUNT("op.resize.doubling.with-2-or-more-elements");
+                }
             } else {
                 VRT_COUNT("op.resize.same-geometry");
             }
@@ -474,6 +709,7 @@ static int st_apply(uint32_t op, int audit)
         if (!ready[t]) return 0;
         vrt_state(table_pending(t) ? "pending" : "idle");
         VRT_OP1("hash.rehash", "t%ld", t);
+        if (table_pending(t)) fresh[t] |= F_REHASH;
         cstl_hash_rehash(&T[t]);
         pending_possible[t] = 0;
         if (mode == M_INCR && inforce[t].f < NF) {
@@ -513,6 +749,8 @@ static int st_apply(uint32_t op, int audit)
         r0 = pending_possible[0]; pending_possible[0] = pending_possible[1]; pending_possible[1] = r0;
         s = sweep_len[0]; sweep_len[0] = sweep_len[1]; sweep_len[1] = s;
         s = keyed_since[0]; keyed_since[0] = keyed_since[1]; keyed_since[1] = s;
+        r0 = fresh[0]; fresh[0] = fresh[1]; fresh[1] = r0;
+        r0 = cleared_before[0]; cleared_before[0] = cleared_before[1]; cleared_before[1] = r0;
         check_size(0, "hash.size.after-swap"); check_size(1, "hash.size.after-swap");
         VRT_COUNT("op.swap");
         break;
@@ -582,13 +820,18 @@ static void count_state_class(void)
 }
 
 /* ---- probes ---- */
-struct enump { int t; int n; int stop_at; int stop_val; int bad; int erase; };
+struct enump { int t; int n; int stop_at; int stop_val; int bad; int erase; int reent; int total; int konst; const char *entry, *state; };
 static int enum_visit_common(struct elem *x, struct enump *p)
 {
     if (x->magic != MAGIC || x->where != p->t) { p->bad = 1; return 99; }
     if (x->visits != 0) { p->bad = 2; return 99; }
     x->visits = 1;
     p->n++;
+    /* read-only re-entrancy: at the first visits, at the last one, and now and then in between */
+    if (p->reent && (p->n <= 2 || p->n == p->total || p->n % 61 == 0)) {
+        reentrant_calls(p->t, p->entry, p->state);
+        if (p->konst) VRT_COUNT("reentrant.visitor-calls.foreach_const"); else VRT_COUNT("reentrant.visitor-calls.foreach");
+    }
     if (p->erase) {
         int id = x->id;
         cstl_hash_erase(&T[p->t], x);
@@ -609,15 +852,17 @@ static const char *phase_of(int t)
            T[t].bucket.rh.count < T[t].bucket.count ? "shrink-pending" : "refunc-pending";
 }
 
-static void probe_foreach(int t, int konst, int stop, int erase)
+#define probe_foreach(t, konst, stop, erase) probe_foreach_x(t, konst, stop, erase, 0)
+static void probe_foreach_x(int t, int konst, int stop, int erase, int reent)
 {
-    struct enump p = { t, 0, -1, 0, 0, erase };
+    struct enump p = { t, 0, -1, 0, 0, erase, reent, nlive[t], konst, konst ? "hash.foreach_const" : "hash.foreach" };
     int r, total = nlive[t];
     const char *ph = phase_of(t);
     char nm[64];
     if (stop && total > 0) { p.stop_at = (int)(st_sig() % total); p.stop_val = vrt_stop_value(7u * vrt_case_tick() + (unsigned)p.stop_at); }
     clear_visits(t);
     vrt_state(ph);
+    p.state = ph;
     if (konst) {
         VRT_OP2("hash.foreach_const", "t%ld stop@%ld", t, p.stop_at);
         r = cstl_hash_foreach_const(&T[t], enum_visit_const, &p);
@@ -625,9 +870,10 @@ static void probe_foreach(int t, int konst, int stop, int erase)
         VRT_OP3("hash.foreach", "t%ld stop@%ld erase=%ld", t, p.stop_at, erase);
         r = cstl_hash_foreach(&T[t], enum_visit, &p);
     }
-    snprintf(nm, sizeof(nm), "probe.%s.%s", konst ? "foreach_const" : erase ? "foreach-erasing" : "foreach", ph);
+    snprintf(nm, sizeof(nm), "probe.%s%s.%s", konst ? "foreach_const" : erase ? "foreach-erasing" : "foreach", reent ? "-reentrant-visitor" : "", ph);
     vrt_count_dyn(nm, 1);
-#define EK(s) (konst ? "hash.foreach_const." s : "hash.foreach." s)
+#define EK(s) (reent ? (konst ? "hash.foreach_const.reentrant-visitor." s : "hash.foreach.reentrant-visitor." s) : \
+               (konst ? "hash.foreach_const." s : "hash.foreach." s))
     VRT_CHECK(p.bad != 1, EK("visited-non-member"), "enumeration visited an object that is not live in table %d (%s)", t, ph);
     VRT_CHECK(p.bad != 2, EK("visited-twice"), "enumeration visited an element twice (%s)", ph);
     if (p.stop_at < 0) {
@@ -674,7 +920,7 @@ static void probe_clear(int t, int with_cb)
     if (with_cb && clear_n != total)
         vrt_fail("hash.clear.missed-element", "clear handed over %d of %d live elements (%s)", clear_n, total, ph);
     if (!with_cb) for (i = 0; i < nlive[t]; i++) LIVE[t][i]->where = -1;
-    nlive[t] = 0; ready[t] = 0; pending_possible[t] = 0;
+    nlive[t] = 0; ready[t] = 0; pending_possible[t] = 0; cleared_before[t] = 1; fresh[t] = 0;
     VRT_CHECK(cstl_hash_size(&T[t]) == 0, "hash.clear.size-not-zero", "size %zu after clear", cstl_hash_size(&T[t]));
     VRT_CHECK(vrt_lib_live() == live_before - (had_array ? 1 : 0), "hash.clear.bucket-array-not-released",
               "live library blocks %zu -> %zu across clear", live_before, vrt_lib_live());
@@ -717,7 +963,7 @@ static void clear_midway(int t, int with_cb)
     if (with_cb && clear_n != total)
         vrt_fail("hash.clear.missed-element", "clear handed over %d of %d live elements (%s)", clear_n, total, ph);
     if (!with_cb) for (i = 0; i < nlive[t]; i++) LIVE[t][i]->where = -1;
-    nlive[t] = 0; ready[t] = 0; pending_possible[t] = 0;
+    nlive[t] = 0; ready[t] = 0; pending_possible[t] = 0; cleared_before[t] = 1; fresh[t] = 0;
     inforce[t].n = 0; inforce[t].f = -1; keyed_since[t] = 0; sweep_len[t] = 0;
     VRT_CHECK(cstl_hash_size(&T[t]) == 0, "hash.clear.size-not-zero", "size %zu after clear", cstl_hash_size(&T[t]));
     VRT_CHECK(vrt_lib_live() == live_before - (had_array ? 1 : 0), "hash.clear.bucket-array-not-released",
@@ -728,22 +974,28 @@ static void clear_midway(int t, int with_cb)
 /* C03 audit on a replica: every key of the universe */
 static void probe_lookup_audit(int t)
 {
-    size_t k;
+    size_t k, kk;
     int i;
+    /* two passes over the keys: one with a plain visitor, one with a visitor that makes read-only re-entrant calls; which comes
+     * first (and so sees the table before the audit's own keyed calls have moved the rehash on) depends on the state */
+    const int re_first = ready[t] ? (int)(st_sig() & 1) : 0;
     if (!ready[t]) return;
     vrt_state(phase_of(t));
-    for (k = 0; k < (size_t)nkeys + 1; k++) {
-        const size_t key = KX(k);
-        struct findp f = { t, key, -1, 0, 0, NULL };
+    for (kk = 0; kk < 2 * ((size_t)nkeys + 1); kk++) {
+        const int re = (kk >= (size_t)nkeys + 1) != re_first;
+        const size_t key = KX(k = kk % ((size_t)nkeys + 1));
+        struct findp f = { t, key, -1, 0, 0, NULL, re, phase_of(t) };
         void *r;
         int nl = count_live(t, key);
         clear_visits(t);
-        VRT_OP2("hash.find", "t%ld key=%ld (audit, rejecting visitor)", t, k);
+        VRT_OP3("hash.find", "t%ld key=%ld (audit, rejecting visitor, re-entrant=%ld)", t, k, re);
+        vrt_state(f.state);
         r = cstl_hash_find(&T[t], key, find_visit, &f);
-        VRT_CHECK(f.bad == 0, "hash.audit.offered-wrong-object", "audit find(key %zu): offered a non-member/other key/twice (%d)", k, f.bad);
-        VRT_CHECK(r == NULL, "hash.audit.returned-rejected", "audit find(key %zu) returned %p", k, r);
+        if (re) VRT_COUNT("op.find.reentrant-visitor");
+        VRT_CHECK(f.bad == 0, re ? "hash.audit.reentrant-visitor.offered-wrong-object" : "hash.audit.offered-wrong-object", "audit find(key %zu): offered a non-member/other key/twice (%d)", k, f.bad);
+        VRT_CHECK(r == NULL, re ? "hash.audit.reentrant-visitor.returned-rejected" : "hash.audit.returned-rejected", "audit find(key %zu) returned %p", k, r);
         if (f.noffered != nl)
-            vrt_fail("hash.audit.live-element-not-found", "audit find(key %zu) offered %d of %d live elements", k, f.noffered, nl);
+            vrt_fail(re ? "hash.audit.reentrant-visitor.live-element-not-found" : "hash.audit.live-element-not-found", "audit find(key %zu) offered %d of %d live elements", k, f.noffered, nl);
     }
     /* erased (free) objects must not be found: any returned object must be live */
     for (i = 0; i < npool; i++) if (pool[i]->where < 0) {
@@ -770,6 +1022,14 @@ static void st_probe(int pi)
         case 4: probe_foreach(t, 0, 0, 1); break;
         case 5: probe_clear(t, 1); break;
         case 6: probe_clear(t, 0); break;
+        /* visitors that make read-only calls on the table being enumerated and keyed calls on other tables */
+        /* (one replica for both: foreach_const sees the state as it is, foreach then finishes the rehash itself) */
+        case 7: {
+            const uint64_t sg = st_sig();
+            probe_foreach_x(t, 1, (int)(sg >> 3 & 1), 0, 1);
+            probe_foreach_x(t, 0, (int)(sg >> 4 & 1), 0, 1);
+            break;
+        }
         }
     } else {
         probe_lookup_audit(t);
@@ -779,7 +1039,9 @@ static void st_probe(int pi)
 static struct vex model = { st_create, st_destroy, st_apply, st_sig, st_nontrivial, 0, st_probe };
 
 /* ---- closure scopes ---- */
-struct cscope { int nt, nk, np, maxb, f0, f1; uint64_t max_states; };
+/* bk: 0 = key family derived from the scope index, 1 = BOUNDARY keys starting at BK[rot];
+ * dbl: 0 = bucket counts 0..maxb, d = bucket counts { 0, d, 2d } (exact doublings and halvings, also of non-powers of two) */
+struct cscope { int nt, nk, np, maxb, f0, f1; uint64_t max_states; int bk, rot, dbl; };
 static const struct cscope quick_scopes[] = {
     /* tables keys pool buckets funcs */
     { 1, 2, 3, 3, 0, 1, 400000 },
@@ -792,6 +1054,23 @@ static const struct cscope quick_scopes[] = {
     { 1, 1, 3, 4, 0, 1, 400000 },
     { 1, 2, 3, 5, 0, 1, 400000 },
     { 1, 2, 3, 4, 4, 5, 400000 },
+    /* boundary keys (0, SIZE_MAX, 1 / SIZE_MAX-1, 2^63, 2^63-1 / 2^32, 2^32-1, 2^31 / ...), every one the first key after init, after
+     * every resize and after every completed rehash, with the harness's functions, cstl_hash_div and cstl_hash_mul */
+    { 1, 3, 3, 3, 0, 1, 400000, 1, 0, 0 },
+    { 1, 3, 3, 3, 4, 5, 400000, 1, 3, 0 },
+    { 1, 3, 3, 3, 0, 2, 400000, 1, 6, 0 },
+    { 1, 2, 3, 3, 5, 4, 400000, 1, 9, 0 },
+    { 1, 2, 3, 3, 4, 1, 400000, 1, 0, 0 },
+    /* exact doublings (and halvings): 3 <-> 6, 5 <-> 10, 7 <-> 14, 6 <-> 12 next to 4 <-> 8 */
+    { 1, 3, 3, 6, 0, 4, 400000, 0, 0, 3 },
+    { 1, 3, 3, 10, 4, 0, 400000, 1, 1, 5 },
+    { 1, 3, 3, 14, 0, 4, 400000, 0, 0, 7 },
+    { 1, 3, 3, 12, 4, 0, 400000, 1, 4, 6 },
+    { 1, 3, 3, 8, 0, 4, 400000, 0, 0, 4 },
+    /* boundary keys with duplicates; two tables (swap) with SIZE_MAX as the only key (lookup and enum modes: the two-table incr closure
+     * is the most expensive case there is, the two-table random histories cover it) */
+    { 1, 2, 4, 3, 1, 5, 400000, 1, 4, 0 },
+    { 2, 1, 2, 2, 0, 4, 400000, 1, 1, 0 },
 };
 static const struct cscope thorough_scopes[] = {
     { 1, 2, 4, 4, 0, 1, 3000000 },
@@ -808,6 +1087,19 @@ static const struct cscope thorough_scopes[] = {
     { 1, 3, 5, 4, 1, 2, 3000000 },
     { 1, 2, 6, 4, 0, 1, 3000000 },
     { 1, 3, 6, 3, 0, 1, 3000000 },
+    /* boundary keys / exact doublings (see the quick scopes), one size up */
+    { 1, 3, 4, 4, 0, 1, 3000000, 1, 0, 0 },
+    { 1, 3, 4, 4, 4, 5, 3000000, 1, 3, 0 },
+    { 1, 3, 4, 4, 0, 2, 3000000, 1, 6, 0 },
+    { 1, 3, 4, 3, 5, 4, 3000000, 1, 9, 0 },
+    { 1, 2, 4, 4, 4, 1, 3000000, 1, 0, 0 },
+    { 1, 2, 5, 3, 1, 5, 3000000, 1, 4, 0 },
+    { 1, 3, 4, 6, 0, 4, 3000000, 0, 0, 3 },
+    { 1, 3, 4, 10, 4, 0, 3000000, 1, 1, 5 },
+    { 1, 3, 3, 14, 0, 4, 3000000, 0, 0, 7 },
+    { 1, 3, 4, 12, 4, 0, 3000000, 1, 4, 6 },
+    { 1, 3, 4, 8, 0, 4, 3000000, 0, 0, 4 },
+    { 2, 2, 2, 2, 0, 4, 3000000, 1, 0, 0 },
 };
 static const struct cscope *scopes;
 static int nscopes;
@@ -831,6 +1123,7 @@ static int build_alphabet(const struct cscope *s, uint32_t *al)
             al[n++] = OP(K_ERASE, t, key, 1);
         }
         for (b = 0; b <= (size_t)s->maxb; b++) {
+            if (s->dbl && b != 0 && b != (size_t)s->dbl && b != 2 * (size_t)s->dbl) continue;
             al[n++] = OP(K_RESIZE, t, b, 0);
             for (f = 0; f < 2; f++) al[n++] = OP(K_RESIZE, t, b, 1 + (f ? s->f1 : s->f0));
         }
@@ -848,11 +1141,17 @@ static void run_closure(int ci)
     static uint32_t al[1024];
     int n = build_alphabet(s, al);
     struct vex_result r;
-    vrt_case_note("closure tables=%d keys=%d pool=%d buckets<=%d funcs=f%d,f%d alphabet=%d mode=%s%s%s",
-                  s->nt, s->nk, s->np, s->maxb, s->f0, s->f1, n, vrt_mode, (ci & 1) ? " initializer-macro" : "", (ci >> 1) % 3 == 1 ? " 64-bit-keys" : (ci >> 1) % 3 == 2 ? " aliased-keys(differ only above bit 36)" : "");
-    nprobe_per_table = mode == M_ENUM ? 7 : 1;
+    if (mode == M_INCR && s->bk && s->nt > 1) { VRT_COUNT("closure.scopes-skipped-in-incr-mode"); return; }
+    vrt_case_note("closure tables=%d keys=%d pool=%d buckets<=%d%s funcs=f%d,f%d alphabet=%d mode=%s%s%s",
+                  s->nt, s->nk, s->np, s->maxb, s->dbl ? " (only 0, d, 2d)" : "", s->f0, s->f1, n, vrt_mode, (ci & 1) ? " initializer-macro" : "",
+                  s->bk ? " boundary-keys" : (ci >> 1) % 3 == 1 ? " 64-bit-keys" : (ci >> 1) % 3 == 2 ? " aliased-keys(differ only above bit 36)" : "");
+    nprobe_per_table = mode == M_ENUM ? 8 : 1;
     use_macro = ci & 1;
-    bigkeys = (ci >> 1) % 3;
+    bigkeys = s->bk ? 3 : (ci >> 1) % 3;
+    bkrot = (unsigned)s->rot;
+    direct_fns = mode != M_INCR && (ci & 1);
+    if (s->bk) VRT_COUNT("closure.scopes.boundary-keys");
+    if (s->dbl) VRT_COUNT("closure.scopes.doubling-buckets");
     model.nprobes = mode == M_INCR ? 0 : nprobe_per_table * s->nt;
     resized_while_pending = 0;
     vex_closure(&model, SCOPE(s->nt, s->nk, s->np), al, n, s->max_states, 200, &r);
@@ -877,9 +1176,12 @@ static void run_random(uint64_t idx)
     nops = under_memcheck() ? 600 : vrt_thorough ? 8000 : 2500;
     vrt_case_note("random tables=%d keys=%d pool=%d buckets<=%d ops=%d mode=%s", nt, nk, np, maxb, nops, vrt_mode);
     use_macro = idx & 1;
-    bigkeys = (int)((idx >> 1) % 3);
+    bigkeys = (int)((idx >> 1) % 4);
+    bkrot = (unsigned)(idx >> 3) % NBK;
+    direct_fns = mode != M_INCR && ((idx >> 2) & 1);
+    if (bigkeys == 3) VRT_COUNT("random.histories.boundary-keys");
     st_create(SCOPE(nt, nk, np));
-    nprobe_per_table = mode == M_ENUM ? 7 : 1;
+    nprobe_per_table = mode == M_ENUM ? 8 : 1;
     for (i = 0; i < nops; i++) {
         const int t = vrt_below(&g, nt), r = vrt_below(&g, 100);
         size_t key;
@@ -887,12 +1189,18 @@ static void run_random(uint64_t idx)
         if (mode == M_INCR) key = (size_t)vrt_below(&g, np) * 3 + 1; else key = vrt_below(&g, nk);
         if (!ready[t] && r < 90) op = OP(K_RESIZE, t, 1 + vrt_below(&g, maxb), 1 + vrt_below(&g, NF));
         else if (r < 28) op = OP(K_INSERT, t, key, 0);
-        else if (r < 52) op = OP(K_FIND, t, key, mode == M_INCR ? 0 : vrt_below(&g, 4));
+        else if (r < 52) op = OP(K_FIND, t, key, mode == M_INCR ? 0 : vrt_below(&g, 4) | (vrt_below(&g, 4) == 0 ? 8 : 0));
         else if (r < 68) op = OP(K_ERASE, t, key, vrt_below(&g, 5) == 0);
         else if (r < 86) {
             /* resize storms: often a second and third request right away */
             size_t n = vrt_below(&g, 8) == 0 ? (size_t)vrt_below(&g, 2) : vrt_below(&g, 12) == 0 ? 0xfff : 1 + vrt_below(&g, maxb);
             op = OP(K_RESIZE, t, n, vrt_below(&g, NF + 1));
+            /* exact doubling / halving of whatever bucket count is in force (3->6, 5->10, 7->14, ... as well as 4->8), function kept */
+            if (ready[t] && vrt_below(&g, 5) == 0) {
+                const size_t cur = inforce[t].n;
+                n = (vrt_below(&g, 4) == 0 || cur > 128) && cur % 2 == 0 ? cur / 2 : 2 * cur;
+                if (n >= 1 && n < 0xfff) op = OP(K_RESIZE, t, n, vrt_below(&g, 2) ? 0 : 1 + (inforce[t].f < NF ? inforce[t].f : -1));
+            }
             if (vrt_below(&g, 3) == 0) { st_apply(op, 1); op = OP(K_RESIZE, t, 1 + vrt_below(&g, maxb), vrt_below(&g, NF + 1)); }
         }
         else if (r < 89) op = OP(K_REHASH, t, 0, 0);
@@ -900,7 +1208,8 @@ static void run_random(uint64_t idx)
         else if (r < 96) op = OP(K_SWAP, 0, 0, 0);
         else if (mode == M_ENUM && r < 99) {
             /* terminal-style probes inside a history: non-destructive ones only */
-            probe_foreach(t, vrt_below(&g, 2), vrt_below(&g, 2), 0);
+            const int konst = (int)vrt_below(&g, 2), stop = (int)vrt_below(&g, 2);
+            probe_foreach_x(t, konst, stop, 0, vrt_below(&g, 3) == 0);
             continue;
         }
         else if (mode == M_LOOKUP && r < 98 && np <= 64) { probe_lookup_audit(t); continue; }
@@ -1099,12 +1408,20 @@ static void run_longchain(uint64_t which)
 #define NBIGT 2
 #define NLONG 2
 static uint64_t nrandom(void) { return under_memcheck() ? 48 : vrt_thorough ? 20000 : 1500; }
+static void require_more(const char *name);
 static uint64_t ncases(void)
 {
     mode = !strcmp(vrt_mode, "enum") ? M_ENUM : !strcmp(vrt_mode, "incr") ? M_INCR : M_LOOKUP;
     if (vrt_thorough && !under_memcheck()) { scopes = thorough_scopes; nscopes = sizeof(thorough_scopes) / sizeof(scopes[0]); }
     else { scopes = quick_scopes; nscopes = sizeof(quick_scopes) / sizeof(scopes[0]); }
     if (under_memcheck()) nscopes = 3;
+    if (mode != M_INCR) {
+        /* visitors made their read-only re-entrant calls (the incr mode has no visitors) */
+        require_more("reentrant.visitor-calls.find");
+        require_more("reentrant.same-table.nested-foreach_const");
+        require_more("reentrant.bystander-table.rounds");
+    }
+    if (mode == M_ENUM) { require_more("reentrant.visitor-calls.foreach"); require_more("reentrant.visitor-calls.foreach_const"); }
     return nscopes + nrandom() + (!under_memcheck() ? NBIGT + NLONG : 0);
 }
 static void run_case(uint64_t idx)
@@ -1112,6 +1429,7 @@ static void run_case(uint64_t idx)
     /* the few expensive fixed cases first, so that a run capped with --max-cases still has them */
     const uint64_t nfix = !under_memcheck() ? NBIGT + NLONG : 0;
     nomem_case = (int)(idx & 1);
+    direct_fns = 0;
     if (nomem_case) { vrt_fp_arm(NULL, 0, 1); VRT_COUNT("nomem.cases"); }
     if (idx < (uint64_t)nscopes) run_closure((int)idx);
     else if (idx < nscopes + nfix) { if (idx - nscopes < NBIGT) run_bigtable(idx - nscopes); else run_longchain(idx - nscopes - NBIGT); }
@@ -1125,6 +1443,16 @@ static void winit(void)
     vrt_sig_name(0, "table-states");
 }
 
-static const char *const required[] = { "closure.states", "random.histories", "op.insert", "op.resize.while-pending", "op.clear.then-reused", NULL };
+static const char *required[24] = { "closure.states", "random.histories", "op.insert", "op.resize.while-pending", "op.clear.then-reused",
+    /* boundary keys were the first key after every kind of fresh start; exact doublings of both kinds happened */
+    "boundary.first-key.after-init", "boundary.first-key.after-resize", "boundary.first-key.after-rehash-completed",
+    "boundary.first-key.after-clear", "boundary.first-key.is-0", "boundary.first-key.is-size-max", "boundary.keyed.key-2^63", "boundary.keyed.key-2^32",
+    "op.resize.doubling.not-power-of-two", "op.resize.doubling.power-of-two", NULL };
+static void require_more(const char *name)
+{
+    int i;
+    for (i = 0; required[i] != NULL; i++) if (!strcmp(required[i], name)) return;
+    if (i + 1 < (int)(sizeof(required) / sizeof(required[0]))) { required[i] = name; required[i + 1] = NULL; }
+}
 static const struct vrt_harness H = { "hash", ncases, run_case, winit, NULL, required, 16 };
 int main(int argc, char **argv) { return vrt_main(argc, argv, &H); }
